@@ -204,4 +204,477 @@ theorem tie_queue_poll :
     queueForgetConds = ["if ctr.State == arvados.ContainerStateComplete || ctr.State == arvados.ContainerStateCancelled || (ctr.State == arvados.ContainerStateQueued && ctr.Priority == 0)"] :=
   ⟨rfl, rfl, rfl⟩
 
+/-! ### statement structure: `go`/`defer`, order of assignments (kinds `skeleton_in_func`, `assigns_in_func`) -/
+
+/-- `Scheduler.run`: the first queue update, the polling goroutine, then `fixStaleLocks` called *synchronously* (no `go`/`defer` in front of it) before the loop of `runQueue`; `sync` (L3: phase `recovering` strictly precedes `scheduling`; seed C14-d moved the call into a goroutine). -/
+theorem tie_sched_run_skeleton : schedRunSkeleton =
+  ["defer",
+   "call sch.queue.Update => err",
+   "for {",
+   "if d < time.Second {",
+   "}",
+   "call sch.queue.Update => err",
+   "}",
+   "defer",
+   "go",
+   "func {",
+   "for {",
+   "call sch.queue.Update => err",
+   "if err != nil {",
+   "}",
+   "}",
+   "}",
+   "call sch.fixStaleLocks",
+   "call sch.pool.Subscribe => poolNotify",
+   "defer",
+   "call sch.queue.Subscribe => queueNotify",
+   "defer",
+   "for {",
+   "call sch.runQueue",
+   "call sch.sync",
+   "case {",
+   "return",
+   "}",
+   "case {",
+   "}",
+   "case {",
+   "}",
+   "case {",
+   "}",
+   "}"] := rfl
+
+/-- `runQueue`: only `lockContainer` is launched with `go`; `KillContainer`, `StartContainer`, `Unlock`, `Create`, `Shutdown` are synchronous calls in this order inside the branches (`C14.iter`). -/
+theorem tie_runQueue_skeleton : runQueueSkeleton =
+  ["call sch.queue.Entries => unsorted,_",
+   "for {",
+   "}",
+   "func {",
+   "return",
+   "}",
+   "call sch.pool.Running => running",
+   "call sch.pool.Unallocated => unalloc",
+   "for {",
+   "if running || ctr.Priority < 1 {",
+   "continue",
+   "}",
+   "case {",
+   "call sch.pool.AtQuota",
+   "if unalloc[it] < 1 && sch.pool.AtQuota() {",
+   "break",
+   "}",
+   "call sch.pool.KillContainer",
+   "if sch.pool.KillContainer(ctr.UUID, \"about to lock\") {",
+   "continue",
+   "}",
+   "go",
+   "call sch.lockContainer",
+   "}",
+   "case {",
+   "if unalloc[it] > 0 {",
+   "} else {",
+   "call sch.pool.AtQuota",
+   "if sch.pool.AtQuota() {",
+   "call sch.queue.Unlock",
+   "break",
+   "} else {",
+   "call sch.pool.Create",
+   "if sch.pool.Create(it) {",
+   "} else {",
+   "continue",
+   "}",
+   "}",
+   "}",
+   "if dontstart[it] {",
+   "} else {",
+   "call sch.pool.KillContainer",
+   "if sch.pool.KillContainer(ctr.UUID, \"about to start\") {",
+   "} else {",
+   "call sch.pool.StartContainer",
+   "if sch.pool.StartContainer(it, ctr) {",
+   "} else {",
+   "}",
+   "}",
+   "}",
+   "}",
+   "}",
+   "if len(overquota) > 0 {",
+   "for {",
+   "if ctr.State == arvados.ContainerStateLocked {",
+   "call sch.queue.Unlock => err",
+   "if err != nil {",
+   "}",
+   "}",
+   "}",
+   "for {",
+   "if n < 1 {",
+   "continue",
+   "}",
+   "call sch.pool.Shutdown",
+   "}",
+   "}"] := rfl
+
+/-- `sync`: every `cancel`/`kill`/`requeue` is launched with `go` (hence the latch), `Forget` is synchronous (`C14.syncEntry`). -/
+theorem tie_sync_skeleton : syncSkeleton =
+  ["call sch.pool.CountWorkers",
+   "call sch.pool.Running => running",
+   "call sch.queue.Entries => qEntries,qUpdated",
+   "for {",
+   "case {",
+   "if !running {",
+   "if !anyUnknownWorkers {",
+   "go",
+   "call sch.cancel",
+   "}",
+   "} else {",
+   "if !exited.IsZero() && qUpdated.After(exited) {",
+   "go",
+   "call sch.cancel",
+   "} else {",
+   "if ent.Container.Priority == 0 {",
+   "go",
+   "call sch.kill",
+   "}",
+   "}",
+   "}",
+   "}",
+   "case {",
+   "if running {",
+   "go",
+   "call sch.kill",
+   "} else {",
+   "call sch.queue.Forget",
+   "}",
+   "}",
+   "case {",
+   "if running {",
+   "go",
+   "call sch.kill",
+   "} else {",
+   "if ent.Container.Priority == 0 {",
+   "call sch.queue.Forget",
+   "}",
+   "}",
+   "}",
+   "case {",
+   "if running && !exited.IsZero() && qUpdated.After(exited) {",
+   "go",
+   "call sch.requeue",
+   "} else {",
+   "if running && exited.IsZero() && ent.Container.Priority == 0 {",
+   "go",
+   "call sch.kill",
+   "} else {",
+   "if !running && ent.Container.Priority == 0 {",
+   "go",
+   "call sch.requeue",
+   "}",
+   "}",
+   "}",
+   "}",
+   "case {",
+   "}",
+   "}",
+   "for {",
+   "if !known {",
+   "go",
+   "call sch.kill",
+   "}",
+   "}"] := rfl
+
+/-- `lockContainer`: `uuidLock` first, `uuidUnlock` deferred, `Get` → still-Queued test → `Lock` → `Get`. -/
+theorem tie_lockContainer_skeleton : lockContainerSkeleton =
+  ["call sch.uuidLock",
+   "if !sch.uuidLock(uuid, \"lock\") {",
+   "return",
+   "}",
+   "defer",
+   "call sch.uuidUnlock",
+   "call sch.queue.Get => ctr,ok",
+   "if !ok || ctr.State != arvados.ContainerStateQueued {",
+   "return",
+   "}",
+   "call sch.queue.Lock => err",
+   "if err != nil {",
+   "return",
+   "}",
+   "call sch.queue.Get => ctr,ok",
+   "if !ok {",
+   "} else {",
+   "if ctr.State != arvados.ContainerStateLocked {",
+   "}",
+   "}"] := rfl
+
+/-- `kill`: latch, deferred release, `KillContainer` then `ForgetContainer`. -/
+theorem tie_kill_skeleton : killSkeleton =
+  ["call sch.uuidLock",
+   "if !sch.uuidLock(uuid, \"kill\") {",
+   "return",
+   "}",
+   "defer",
+   "call sch.uuidUnlock",
+   "call sch.pool.KillContainer",
+   "call sch.pool.ForgetContainer"] := rfl
+
+/-- `fixStaleLocks`: loop while a worker is Unknown; collect Locked ∧ not running; return when none; after the loop unlock the collected ones (`C14.fixStaleLocks`). -/
+theorem tie_fixStaleLocks_skeleton : fixStaleLocksSkeleton =
+  ["defer",
+   "call sch.pool.CountWorkers",
+   "for {",
+   "call sch.pool.Running => running",
+   "call sch.queue.Entries => qEntries,_",
+   "for {",
+   "if ent.Container.State != arvados.ContainerStateLocked {",
+   "continue",
+   "}",
+   "if running {",
+   "continue",
+   "}",
+   "}",
+   "if len(stale) == 0 {",
+   "return",
+   "}",
+   "case {",
+   "}",
+   "case {",
+   "break",
+   "}",
+   "}",
+   "for {",
+   "call sch.queue.Unlock => err",
+   "if err != nil {",
+   "}",
+   "}"] := rfl
+
+/-- `worker.startContainer`: the completion runs in a goroutine after `rr.Start()`, under the lock, and returns early when its runner has left `starting`. -/
+theorem tie_worker_startContainer_skeleton : startContainerWorkerSkeleton =
+  ["call newRemoteRunner => rr",
+   "if wkr.state != StateRunning {",
+   "go",
+   "}",
+   "go",
+   "func {",
+   "call rr.Start",
+   "if wkr.wp.mTimeFromQueueToCrunchRun != nil {",
+   "}",
+   "call wkr.mtx.Lock",
+   "defer",
+   "call wkr.mtx.Unlock",
+   "if wkr.starting[ctr.UUID] != rr {",
+   "return",
+   "}",
+   "call delete",
+   "}"] := rfl
+
+/-- … `starting[uuid] = rr; state = Running` synchronously (`Worker.accept`), and only then, in the closure, `updated = busy = now; running[uuid] = rr` (`Worker.startDone`): the stale-probe guard depends on `updated` being stamped *there* (seed C14-b, mutation M7). -/
+theorem tie_worker_startContainer_assigns : startContainerWorkerAssigns =
+  ["wkr.starting[ctr.UUID] = rr",
+   "wkr.state = StateRunning",
+   "wkr.updated = now",
+   "wkr.busy = now",
+   "wkr.running[ctr.UUID] = rr",
+   "wkr.lastUUID = ctr.UUID"] := rfl
+
+/-- `closeRunner` stamps `updated`, records `exited`, may go Idle. -/
+theorem tie_worker_closeRunner_assigns : closeRunnerAssigns =
+  ["wkr.updated = now",
+   "wkr.wp.exited[uuid] = now",
+   "wkr.state = StateIdle"] := rfl
+
+/-- `shutdown` stamps `updated` and sets Shutdown (`Worker.shutdown`). -/
+theorem tie_worker_shutdown_assigns : shutdownAssigns =
+  ["wkr.updated = now",
+   "wkr.destroyed = now",
+   "wkr.state = StateShutdown"] := rfl
+
+/-- `probeAndUpdate` reads `updated` and the state at its beginning and stamps `updated` only at the very end of a result that was used (`Worker.applyFresh`). -/
+theorem tie_worker_probeAndUpdate_assigns : probeAndUpdateAssigns =
+  ["updated := wkr.updated",
+   "initialState := wkr.state",
+   "wkr.probed = updateTime",
+   "wkr.busy = updateTime",
+   "wkr.lastUUID = ctrUUIDs[0]",
+   "wkr.busy = updateTime",
+   "wkr.state = StateIdle",
+   "wkr.state = StateRunning",
+   "wkr.state = StateIdle",
+   "wkr.updated = updateTime"] := rfl
+
+/-- `probeAndUpdate`: three critical sections around the two remote probes; the last one is deferred-unlocked and contains drain, the failed-probe branch, the stale guard, `updateRunning` and the state fix-up, in this order. -/
+theorem tie_worker_probeAndUpdate_skeleton : probeAndUpdateSkeleton =
+  ["call wkr.mtx.Lock",
+   "call wkr.mtx.Unlock",
+   "case {",
+   "return",
+   "}",
+   "case {",
+   "}",
+   "case {",
+   "}",
+   "case {",
+   "}",
+   "if !booted {",
+   "call wkr.probeBooted => booted,stderr",
+   "if !booted {",
+   "call wkr.mtx.Lock",
+   "call wkr.mtx.Unlock",
+   "}",
+   "if booted {",
+   "}",
+   "}",
+   "if booted || wkr.state == StateUnknown {",
+   "call wkr.probeRunning => ctrUUIDs,reportedBroken,ok",
+   "}",
+   "call wkr.mtx.Lock",
+   "defer",
+   "call wkr.mtx.Unlock",
+   "if reportedBroken && wkr.idleBehavior == IdleBehaviorRun {",
+   "call wkr.setIdleBehavior",
+   "}",
+   "if !ok || (!booted && len(ctrUUIDs) == 0 && len(wkr.running) == 0) {",
+   "if wkr.state == StateShutdown && wkr.updated.After(updated) {",
+   "return",
+   "}",
+   "call wkr.shutdownIfBroken",
+   "if wkr.shutdownIfBroken(dur) {",
+   "if !booted {",
+   "}",
+   "}",
+   "return",
+   "}",
+   "if updated != wkr.updated {",
+   "return",
+   "}",
+   "if len(ctrUUIDs) > 0 {",
+   "} else {",
+   "if len(wkr.running) > 0 {",
+   "}",
+   "}",
+   "call wkr.updateRunning => changed",
+   "if booted && (wkr.state == StateUnknown || wkr.state == StateBooting) {",
+   "if wkr.state == StateBooting {",
+   "}",
+   "}",
+   "if !changed {",
+   "return",
+   "}",
+   "if wkr.state == StateUnknown && changed {",
+   "}",
+   "if wkr.state == StateIdle && len(wkr.starting)+len(wkr.running) > 0 {",
+   "} else {",
+   "if wkr.state == StateRunning && len(wkr.starting)+len(wkr.running) == 0 {",
+   "}",
+   "}",
+   "if booted && (initialState == StateUnknown || initialState == StateBooting) {",
+   "}",
+   "go"] := rfl
+
+/-- `updateWorker` stamps `updated` of a listed worker (so `Pool.sync` keeps it) or adds a new one. -/
+theorem tie_pool_updateWorker_assigns : updateWorkerAssigns =
+  ["wkr.updated = time.Now()",
+   "wp.workers[id] = wkr"] := rfl
+
+/-- `Queue.Update`: `dontupdate` reset under the lock, `poll()` without the lock, merge under the lock skipping `dontupdate` entries (`QStep.pollBegin/pollRead/pollEnd`). -/
+theorem tie_queue_update_skeleton : queueUpdateSkeleton =
+  ["call cq.mtx.Lock",
+   "call cq.mtx.Unlock",
+   "call cq.poll => next,err",
+   "if err != nil {",
+   "return",
+   "}",
+   "call cq.mtx.Lock",
+   "defer",
+   "call cq.mtx.Unlock",
+   "for {",
+   "if dontupdate {",
+   "continue",
+   "}",
+   "if !ok {",
+   "call cq.addEnt",
+   "} else {",
+   "}",
+   "}",
+   "for {",
+   "if dontupdate {",
+   "continue",
+   "} else {",
+   "if !stillpresent {",
+   "call cq.delEnt",
+   "}",
+   "}",
+   "}",
+   "return"] := rfl
+
+/-- `dontupdate` is created at the beginning of `Update` and cleared only after the merge (seed C14-c cleared it at the end of `poll`). -/
+theorem tie_queue_update_assigns : queueUpdateAssigns =
+  ["cq.dontupdate = map[string]struct{}{}",
+   "cq.current[uuid] = cur",
+   "cq.dontupdate = nil",
+   "cq.updated = updateStarted"] := rfl
+
+/-- `poll` itself never touches `dontupdate` or the cache entries (apart from `delEnt` of unknown uuids). -/
+theorem tie_queue_poll_assigns : queuePollAssigns =
+  ["cq.auth = auth"] := rfl
+
+/-- `poll`: mine, available, then the missing ones in batches. -/
+theorem tie_queue_poll_skeleton : queuePollSkeleton =
+  ["call cq.mtx.Lock",
+   "call cq.mtx.Unlock",
+   "if auth == nil {",
+   "if err != nil {",
+   "return",
+   "}",
+   "call cq.mtx.Lock",
+   "call cq.mtx.Unlock",
+   "}",
+   "func {",
+   "for {",
+   "if next[upd.UUID] == nil {",
+   "}",
+   "}",
+   "}",
+   "call cq.fetchAll => mine,err",
+   "if err != nil {",
+   "return",
+   "}",
+   "call cq.fetchAll => avail,err",
+   "if err != nil {",
+   "return",
+   "}",
+   "call cq.mtx.Lock",
+   "for {",
+   "if next[uuid] == nil && ent.Container.State != arvados.ContainerStateCancelled && ent.Container.State != arvados.ContainerStateComplete {",
+   "}",
+   "}",
+   "call cq.mtx.Unlock",
+   "for {",
+   "for {",
+   "if len(batch) == 20 {",
+   "break",
+   "}",
+   "}",
+   "call cq.fetchAll => ended,err",
+   "if err != nil {",
+   "return",
+   "}",
+   "if len(ended) == 0 {",
+   "for {",
+   "call cq.mtx.Lock",
+   "call cq.delEnt",
+   "call cq.mtx.Unlock",
+   "}",
+   "continue",
+   "}",
+   "for {",
+   "if !ok {",
+   "return",
+   "}",
+   "}",
+   "}",
+   "return"] := rfl
+
+/-- `updateWithResp` marks `dontupdate` and overwrites the cached entry. -/
+theorem tie_queue_updateWithResp_assigns : updateWithRespAssigns =
+  ["cq.dontupdate[uuid] = struct{}{}",
+   "cq.current[uuid] = ent"] := rfl
+
 end ArvVerif.Tie.C14
